@@ -669,6 +669,10 @@ class Interp:
             if m == "clear" and not argv:
                 recv.clear()
                 return ()
+        if isinstance(recv, tuple) and not isinstance(recv, V) and recv[:1] == ("range",) and len(recv) == 4 and isinstance(recv[1], int) and isinstance(recv[2], int) and \
+                m in ("map", "filter", "filter_map", "find", "find_map", "any", "all", "position", "for_each", "rev", "enumerate", "count", "take_while", "skip_while", "map_while", "flat_map", "collect", "zip", "fold", "sum"):
+            # an integer range used as an iterator
+            recv = list(range(recv[1], recv[2] + (1 if recv[3] else 0)))
         if m in ("is_some", "is_none") and isinstance(recv, V) and not n["args"]:
             return (recv.name == "Option::Some") == (m == "is_some")
         if m in ("is_ok", "is_err") and isinstance(recv, V) and not n["args"]:
@@ -704,6 +708,10 @@ class Interp:
                         "is_nan": lambda: recv != recv, "is_finite": lambda: math.isfinite(recv)}[m]()
             except (ValueError, OverflowError):
                 raise Undecided("float method %s on %r" % (m, recv))
+        if isinstance(recv, int) and not isinstance(recv, bool) and len(n["args"]) == 1 and m in ("min", "max", "pow", "abs_diff"):
+            a = self.ev(n["args"][0], env)
+            if isinstance(a, int) and not isinstance(a, bool):
+                return {"min": min, "max": max, "pow": lambda x, y: x ** y, "abs_diff": lambda x, y: abs(x - y)}[m](recv, a)
         if isinstance(recv, float) and len(n["args"]) == 1 and m in ("powi", "powf", "min", "max"):
             a = self.ev(n["args"][0], env)
             if isinstance(a, (int, float)) and not isinstance(a, bool):
